@@ -88,14 +88,14 @@ Theorem C10_xml_bool : forall ft scope fl a b, XStd scope -> plain_attr a ->
   spec_xml_value ft scope fl a (VBool b) = Some (content_value (VBool b)).
 Proof. exact spec_xml_bool. Qed.
 Theorem C10_xml_float : forall ft scope fl a r iv g, XStd scope -> plain_attr a ->
-  starts_with "prov:" r = false -> lookup r ft = Some (Some (r, iv, g)) ->
+  lookup r ft = Some (Some (r, iv, g)) ->
   spec_xml_value ft scope fl a (VFloat r iv g) = Some (content_value (VFloat r iv g)).
 Proof. exact spec_xml_float. Qed.
 Theorem C10_xml_time : forall ft scope fl a tm, XStd scope -> plain_attr a -> valid_dt tm = true ->
   spec_xml_value ft scope fl a (VTime tm) = Some (content_value (VTime tm)).
 Proof. exact spec_xml_time. Qed.
 Print Assumptions C10_xml_time.
-Theorem C10_xml_id : forall ft scope fl a u, XStd scope -> plain_attr a -> starts_with "prov:" u = false ->
+Theorem C10_xml_id : forall ft scope fl a u, XStd scope -> plain_attr a ->
   spec_xml_value ft scope fl a (VId u) = Some (content_value (VId u)).
 Proof. exact spec_xml_id. Qed.
 Theorem C10_xml_qn : forall ft scope fl a q, XStd scope -> is_qname_attr a = false ->
